@@ -42,6 +42,8 @@ type Thr struct {
 	Arg    string
 	Done   bool
 	Pan    interface{}
+	// Adopted: a goroutine the library started itself; it ends without a "done" event
+	Adopted bool
 }
 
 type Sched struct {
@@ -173,7 +175,7 @@ func (s *Sched) Spawn(name string, f func()) *Thr {
 // Expect declares a thread that will be adopted when an unregistered goroutine reaches `label`
 // (used for goroutines the library starts itself). WaitAdopted blocks until it parked there.
 func (s *Sched) Expect(name, label string) *Thr {
-	t := &Thr{Name: name, resume: make(chan struct{}), events: make(chan parkEv, 1)}
+	t := &Thr{Name: name, resume: make(chan struct{}), events: make(chan parkEv, 1), Adopted: true}
 	s.mu.Lock()
 	s.Threads[name] = t
 	s.Adopt[label] = name
@@ -220,6 +222,25 @@ func (s *Sched) Step(t *Thr) (label, arg string) {
 	}
 }
 
+// Release resumes a parked thread without waiting for it to park again and marks it finished. Used for
+// goroutines the library started itself (adopted threads) at their last hook: they end without a
+// "done" event, so waiting for one would only run into the watchdog.
+func (s *Sched) Release(t *Thr) {
+	if t.Done {
+		return
+	}
+	if t.At != "blocked" && t.At != "" {
+		select {
+		case t.resume <- struct{}{}:
+		case <-time.After(s.Timeout):
+		}
+	}
+	t.Done, t.At = true, "done"
+	s.mu.Lock()
+	delete(s.byGid, t.gid)
+	s.mu.Unlock()
+}
+
 // Poll checks (without resuming) whether a thread left running has parked or finished in the meantime.
 func (s *Sched) Poll(t *Thr, wait time.Duration) (label string, ok bool) {
 	if t.At != "blocked" {
@@ -263,7 +284,7 @@ func (s *Sched) Finish() {
 		}
 	}
 	for _, t := range ts {
-		if t.Done || t.gid == 0 {
+		if t.Done || t.gid == 0 || t.Adopted {
 			continue
 		}
 		deadline := time.After(wait)
